@@ -27,7 +27,8 @@ Dens == {"d1", "d2"}
 Events(s) ==
   IF ~Has(s.l1.cfg, "1") THEN {Create}
   ELSE
-    (IF Len(s.deps) < (IF Thorough THEN 3 ELSE 2)
+    (IF Len(s.deps) < 2      \* measured: a third deposit gives 6*10^5 states / 8*10^6 transitions even with two withdrawals - beyond what E2 replays in the time allowed
+    
      THEN {UserDeposit("u1", "u1", d, 2) : d \in Dens} \cup {UserDeposit("u2", "bad:notbech32", "d1", 1), UserDeposit("u1", "u2", "d1", 4)}
           \cup {UserDepositD("u1", "u2", "d1", 2, h) : h \in {"hw", "hwf"}} ELSE {})
     \cup {Relay(s, a, q) : a \in {"e1"}, q \in 1..Len(s.deps)}
